@@ -194,13 +194,20 @@ def other_kinds(rep, rng, x, X, quick):
         nm = mv.normalize()
         if np.max(np.abs(nm.norm() - 1.0)) > 1e-8:
             bad.append("normalised multivariate observations do not have unit multivariate norm")
-    rm, ws = mv.rescale()
-    for comp, w, raw in zip(rm.data, ws, mv.data):
-        _, w0 = raw.rescale()
-        if abs(w - w0) > 1e-10 * max(1.0, abs(w0)):
-            bad.append("multivariate rescale weight differs from the component's own weight")
-        if w0 > 1e-12 and np.max(np.abs(np.asarray(comp.values) * np.sqrt(w0) - np.asarray(raw.values))) > 1e-9 * max(1.0, np.max(np.abs(np.asarray(raw.values)))):
-            bad.append("multivariate rescale does not divide the component by sqrt(weight)")
+    # component-wise under every option: default, standardised grids, simpson, user weights
+    for label, kw, kws in (("default", {}, [{}, {}]),
+                           ("use_argvals_stand", {"use_argvals_stand": True}, [{"use_argvals_stand": True}] * 2),
+                           ("simpson", {"method_integration": "simpson"}, [{"method_integration": "simpson"}] * 2),
+                           ("user weights", {"weights": np.array([0.25, 4.0])}, [{"weights": 0.25}, {"weights": 4.0}])):
+        rm, ws = mv.rescale(**kw)
+        for comp, w, raw, kwc in zip(rm.data, ws, mv.data, kws):
+            own, w0 = raw.rescale(**kwc)
+            if abs(w - w0) > 1e-10 * max(1.0, abs(w0)):
+                bad.append(f"multivariate rescale ({label}): weight differs from the component's own weight under the same option")
+            if np.max(np.abs(np.asarray(comp.values) - np.asarray(own.values))) > 1e-10 * max(1.0, np.max(np.abs(np.asarray(own.values)))):
+                bad.append(f"multivariate rescale ({label}): values differ from the component's own rescaling under the same option")
+            if w0 > 1e-12 and np.max(np.abs(np.asarray(comp.values) * np.sqrt(w0) - np.asarray(raw.values))) > 1e-9 * max(1.0, np.max(np.abs(np.asarray(raw.values)))):
+                bad.append(f"multivariate rescale ({label}) does not divide the component by sqrt(weight)")
     rep.case(("mv", X.tobytes(), X2.tobytes()), kind="multivariate")
     if bad:
         rep.violation("multivariate data: " + "; ".join(sorted(set(bad))), {"X1": C.hexf(X), "X2": C.hexf(X2), "x1": C.hexf(x), "x2": C.hexf(x2)})
